@@ -396,6 +396,9 @@ func (p *sparser) postfix() SExpr {
 	}
 }
 func (p *sparser) primary() SExpr {
+	if p.isID("forall") || p.isID("exists") || p.isID("let") {
+		return p.expr()
+	}
 	t := p.next()
 	switch t.k {
 	case "id":
@@ -452,6 +455,7 @@ type Contract struct {
 	LoopDec    map[int]Clause
 	LoopMod    map[int][]string
 	PanicsOK   bool
+	PureFuncs  []string // function-valued parameters / variables assumed pure (`pure f, g`)
 	ArithWrap  bool   // integer arithmetic wraps around (exact two's complement) instead of raising overflow obligations
 	FirstDefer string // the body must start with `defer <this function>(...)`
 	CallPre    map[string][]Clause // emit-preconditions: callee name[.ordinal] -> clauses over the caller's variables and the callee's parameters
@@ -714,6 +718,10 @@ func parseContractText(data, path, pkg string) (*ContractFile, error) {
 		case "arith":
 			if cur != nil && rest == "wrap" {
 				cur.ArithWrap = true
+			}
+		case "pure":
+			if cur != nil {
+				cur.PureFuncs = append(cur.PureFuncs, strings.Fields(strings.ReplaceAll(rest, ",", " "))...)
 			}
 		case "callpre":
 			// callpre callee[.n]: [@label:] expr
